@@ -42,9 +42,31 @@ theorem foldl_remove_sublist (ids : List Id) : ∀ m : ArgMap, (ids.foldl (fun a
   | nil => intro m; exact List.Sublist.refl m
   | cons o os ih => intro m; exact (ih _).trans (remove_sublist o m)
 
+theorem dropEmptyGroups_sublist (c : Cmd) (id : Id) (m : ArgMap) : (dropEmptyGroups c id m).Sublist m := by
+  unfold dropEmptyGroups
+  generalize c.groupsForArg id = gs
+  induction gs generalizing m with
+  | nil => exact List.Sublist.refl m
+  | cons g gs ih =>
+    simp only [List.foldl_cons]
+    split
+    · exact ih m
+    · exact (ih _).trans (remove_sublist g m)
+
+theorem removeOverridden_sublist (c : Cmd) (m : ArgMap) (o : Id) : (removeOverridden c m o).Sublist m := by
+  unfold removeOverridden
+  split
+  · exact (dropEmptyGroups_sublist c o _).trans (remove_sublist o m)
+  · exact List.Sublist.refl m
+
+theorem foldl_removeOverridden_sublist (c : Cmd) (ids : List Id) : ∀ m : ArgMap, (ids.foldl (removeOverridden c) m).Sublist m := by
+  induction ids with
+  | nil => intro m; exact List.Sublist.refl m
+  | cons o os ih => intro m; exact (ih _).trans (removeOverridden_sublist c m o)
+
 theorem removeOverrides_sublist (c : Cmd) (a : Arg) (m : ArgMap) : (removeOverrides c a m).Sublist m := by
   unfold removeOverrides
-  exact (foldl_remove_sublist _ _).trans (foldl_remove_sublist _ _)
+  exact (foldl_removeOverridden_sublist c _ _).trans (foldl_removeOverridden_sublist c _ _)
 
 /-- dropping entries keeps the invariant -/
 theorem inv_of_sublist {p : P} {m' : ArgMap} (h : Inv p) (hs : m'.Sublist p.args) : Inv { p with args := m' } :=
